@@ -348,3 +348,48 @@ Qed.
 Theorem C19_generated_facts_present : GEN_FS_OK = true /\ GEN_CONST_OK = true.
 Proof. split; reflexivity. Qed.
 Print Assumptions C19_generated_facts_present.
+
+(* ====================================================================================== *)
+(* Glue C19 <-> C05/C12 (theories/Glue/GlueFs.v).  The save / load of a FileSystemTree above ([to_list],
+   [from_list] of Forest/FsLoad.v, with FsLoad's own JSON values and dicts) is the INSTANCE of the general
+   serialisation model Forest/Serialize.v for the class CFs and the FS mappers:
+     [emb_f 1 f]  the FS tree as a forest of the general model (identity = pre-order position, payload = a
+                  non-str object with identity hash and default data_id; the FileSystemEntry record in the
+                  meta slot, where the mappers read it: [dec (einfo pos e) = e]),
+     [ser_fs] / [deser_fs]  FileSystemTree.serialize_mapper / deserialize_mapper in the general model's
+                  interface ([ser_fs i (tdict d) = tdict (ser (dec i) d)]),
+     [tdict] / [tr_entry]   FsLoad's dicts and (parent index, dict) entries as values of the general JSON type.
+   So C19_save_load_roundtrip is the general round trip of C05/C12 (writer = layout, reader (layout) =
+   described, proved in Properties/C12.v) at this instance.  Imports: FsLoad*, Serialize.v, SerializeSpec.v and
+   generated-fact-free proof files (SerLayFacts, SerUnflatProofs) only. *)
+From NT Require Serialize GlueFs.
+
+Theorem C19_mappers_are_the_general_models : forall i d,
+  GlueFs.ser_fs i (GlueFs.tdict d) = GlueFs.tdict (ser (GlueFs.dec i) d) /\
+  (forall pos e, GlueFs.dec (GlueFs.einfo pos e) = e).
+Proof. intros i d. split; [apply GlueFs.ser_fs_is_ser|apply GlueFs.dec_einfo]. Qed.
+Print Assumptions C19_mappers_are_the_general_models.
+
+(* WRITER: Node.to_list_iter of the general model, run on the embedded tree with the FS serialize mapper and no
+   key / value maps (C19_fs_key_map_empty), yields exactly the entries of [to_list] *)
+Theorem C19_to_list_is_the_general_writer : forall f : list ft,
+  Serialize.to_list_iter Serialize.CFs GlueFs.ser_fs [] [] (GlueFs.emb_f 1%nat f) = Serialize.Ok (map GlueFs.tr_entry (to_list f)).
+Proof. exact GlueFs.fs_to_list_is_to_list_iter. Qed.
+Print Assumptions C19_to_list_is_the_general_writer.
+
+(* READER: on that file Tree._from_list of the general model, with the FS deserialize mapper, rebuilds the tree
+   [from_list] rebuilds: same shape, same positions, same names (the general model's rebuilt data object
+   carries name / str-ness / hash only; the remaining fields are covered by C19_mappers_inverse) *)
+Theorem C19_from_list_is_the_general_reader : forall shash (f : list ft), ok_f f ->
+  Serialize.from_list Serialize.CFs GlueFs.deser_fs shash (map GlueFs.tr_entry (to_list f)) = Serialize.Ok (map GlueFs.strip_t (GlueFs.emb_f 1%nat f)) /\
+  from_list (to_list f) = Some f.
+Proof. exact GlueFs.fs_from_list_is_from_list. Qed.
+Print Assumptions C19_from_list_is_the_general_reader.
+
+Example C19_general_model_nonvacuous :
+  let f := [FN (entry_dir [100%Z]) [FN (entry_file [97%Z] 3 (7, 2)%Z) []; FN (entry_dir [101%Z]) []]; FN (entry_file [98%Z] 0 (1, 1)%Z) []] in
+  Serialize.to_list_iter Serialize.CFs GlueFs.ser_fs [] [] (GlueFs.emb_f 1%nat f) = Serialize.Ok (map GlueFs.tr_entry (to_list f)) /\
+  length (to_list f) = 4%nat /\
+  Serialize.from_list Serialize.CFs GlueFs.deser_fs (fun _ => 0%Z) (map GlueFs.tr_entry (to_list f)) = Serialize.Ok (map GlueFs.strip_t (GlueFs.emb_f 1%nat f)) /\
+  save_load f = Some f.
+Proof. vm_compute. repeat split. Qed.
